@@ -109,7 +109,33 @@ func oneshotMain() {
 	must(json.NewEncoder(os.Stdout).Encode(res))
 }
 
+var warmed bool
+
+// warmUp brings the package-level lazily initialised state of the code under test (sync.Once
+// guarded tables) into its steady state, single-task, so that the sequence of scheduling
+// points of a run depends on the case only and not on what the process executed before: a
+// decision log recorded in a long-lived worker replays in a fresh process. Cold-start runs
+// (C18, job.Rep == 1) skip it on purpose.
+func warmUp() {
+	warmed = true
+	canonicalEnv()
+	r := NewRand(0x77a3)
+	for i := 0; i < 6; i++ {
+		p := genValid(r.Fork())
+		must(MaterialiseAt("warm", p.Files))
+		if o := BuildPath("warm/" + p.Root); o.OK {
+			for _, op := range accessors {
+				call(o.japi, op)
+			}
+		}
+	}
+	raceDelta()
+}
+
 func runJob(job *Job) *Result {
+	if !warmed && !(job.Prop == "C18" && job.Rep >= 1 && job.Case != nil && job.Case.Conc != nil && job.Case.Conc.Cold) {
+		warmUp()
+	}
 	eng := engines[job.Prop]
 	if eng == nil {
 		return &Result{ID: job.ID, Seed: job.Seed, Verdict: "harness-error", Msg: "no engine for " + job.Prop}
